@@ -155,52 +155,84 @@ def _r2(ctx):
     ctx.rule("R2", "snapping: 1/n for n = 1..10, symmetric 5 % window, nearest integer latency, None outside")
     f = ctx.func("db_interface._validate_measurement")
     m, mode = f.params()[0], f.params()[1]
-    rec = pm.find("M_r = [1 / M_x for M_x in range(1, 11)]", f.node)
-    rec_any = [n for n in ast.walk(f.node) if isinstance(n, ast.Call) and isinstance(n.func, ast.Name) and n.func.id == "range"]
-    ctx.judge(len(rec) == 1, len(rec) == 1 or bool(C.assigns_to(f.node, "reciprocals")) or not rec_any, "R2", "throughput candidates = 1/n, n in range(1, 11)", f.where(),
-              "throughput candidates are not [1/x for x in range(1, 11)]: %s" % [U(a.value) for a in C.assigns_to(f.node, "reciprocals")],
-              f.qname, "reciprocals")
-    tp = [n for n in ast.walk(f.node) if isinstance(n, ast.If) and isinstance(C.enclosing_loop(n), ast.For)
-          and C.bounds_on(n.test, m) is not None]
-    ok = False
-    if tp and rec:
-        t = tp[0].test
-        loop = C.enclosing_loop(tp[0])
-        r = U(loop.target) if isinstance(loop, ast.For) and U(loop.iter) == U(rec[0][1]["M_r"]) else None
-        if r:
-            ok = C.bounds_on(t, m) == ("and", {("GtE", frozenset({(r, 0.95)})), ("LtE", frozenset({(r, 1.05)}))})
-            ret = [s for s in tp[0].body if isinstance(s, ast.Return)]
-            okr = bool(ret) and pm.match("round(%s, M_d)" % r, ret[0].value) is not None
-            ctx.check(okr, "R2", "an accepted throughput is the matching reciprocal", f.where(tp[0]),
-                      "accepted throughput returns %s" % (U(ret[0].value) if ret else None), f.qname, "tp return")
-            facts = [(U(e), p) for e, p in C.facts_at(tp[0])]
-            ctx.check(("%s == 'tp'" % mode, True) in facts, "R2", "reciprocal snapping applies to throughput mode", f.where(tp[0]),
-                      "reciprocal snapping is not under mode == 'tp'", f.qname, "tp mode")
-    if tp and rec:
-        ctx.check(ok, "R2", "throughput window = [0.95 * 1/n, 1.05 * 1/n]", f.where(tp[0]),
-                  "throughput acceptance window is `%s`" % U(tp[0].test), f.qname, "tp window")
+    # a mode may be delegated: `if mode == 'tp': return helper(measurement)` -> analyse the helper for that mode
+    def delegate(lit):
+        for n in ast.walk(f.node):
+            if isinstance(n, ast.Return) and isinstance(n.value, ast.Call) and len(n.value.args) == 1 and U(n.value.args[0]) == m:
+                if any(p and U(e) == "%s == %s" % (mode, lit) for e, p in C.facts_at(n)):
+                    nm = pm.call_name(n.value).split(".")[-1]
+                    h = ctx.repo.funcs.get("db_interface." + nm)
+                    if h is not None and len(h.params()) == 1:
+                        return h, h.params()[0], True
+        return f, m, False
+    tf, tm, t_del = delegate("'tp'")
+    lf, lm, l_del = delegate("'lt'")
+
+    def num(e):
+        """value of a constant expression (named constants were replaced by their literals on load)"""
+        v = C.const_num(e)
+        if v is not None:
+            return v
+        if isinstance(e, ast.BinOp) and isinstance(e.op, (ast.Add, ast.Sub)):
+            a_, b_ = num(e.left), num(e.right)
+            if a_ is not None and b_ is not None:
+                return a_ + b_ if isinstance(e.op, ast.Add) else a_ - b_
+        return None
+
+    # throughput candidates: a loop over [1 / x for x in range(1, N)] or over range(1, N) with r = 1 / x in the body
+    cand = None         # (loop, reciprocal variable, lower, upper)
+    for l in [x for x in ast.walk(tf.node) if isinstance(x, ast.For) and isinstance(x.target, ast.Name)]:
+        it = l.iter
+        if isinstance(it, ast.Name):
+            ds = [a_ for a_ in C.assigns_to(tf.node, it.id) if isinstance(a_, ast.Assign)]
+            it = ds[0].value if len(ds) == 1 else it
+        bq = pm.match("[1 / M_x for M_x in range(M_lo, M_hi)]", it)
+        if bq is not None:
+            cand = (l, l.target.id, num(bq["M_lo"]), num(bq["M_hi"]))
+        br = pm.match("range(M_lo, M_hi)", it)
+        if br is not None:
+            rdef = [a_ for a_ in l.body if isinstance(a_, ast.Assign) and pm.match("1 / %s" % l.target.id, a_.value) is not None]
+            if len(rdef) == 1:
+                cand = (l, U(rdef[0].targets[0]), num(br["M_lo"]), num(br["M_hi"]))
+    ctx.judge(cand is not None and cand[2] == 1 and cand[3] == 11, cand is not None and cand[2] is not None and cand[3] is not None, "R2",
+              "throughput candidates = 1/n, n in range(1, 11)", tf.where(cand[0]) if cand else tf.where(),
+              "throughput candidates are 1/n for n in range(%s, %s), not range(1, 11)" % (cand[2], cand[3]) if cand else "no candidate loop",
+              tf.qname, "reciprocals")
+    tp = [n for n in ast.walk(cand[0]) if isinstance(n, ast.If) and C.bounds_on(n.test, tm) is not None] if cand else []
+    if tp:
+        r = cand[1]
+        ok = C.bounds_on(tp[0].test, tm) == ("and", {("GtE", frozenset({(r, 0.95)})), ("LtE", frozenset({(r, 1.05)}))})
+        ret = [s_ for s_ in tp[0].body if isinstance(s_, ast.Return)]
+        okr = bool(ret) and pm.match("round(%s, M_d)" % r, ret[0].value) is not None
+        ctx.check(okr, "R2", "an accepted throughput is the matching reciprocal", tf.where(tp[0]),
+                  "accepted throughput returns %s" % (U(ret[0].value) if ret else None), tf.qname, "tp return")
+        facts = [(U(e), p) for e, p in C.facts_at(tp[0])]
+        ctx.check(t_del or ("%s == 'tp'" % mode, True) in facts, "R2", "reciprocal snapping applies to throughput mode", tf.where(tp[0]),
+                  "reciprocal snapping is not under mode == 'tp'", tf.qname, "tp mode")
+        ctx.check(ok, "R2", "throughput window = [0.95 * 1/n, 1.05 * 1/n]", tf.where(tp[0]),
+                  "throughput acceptance window is `%s`" % U(tp[0].test), tf.qname, "tp window")
     else:
-        ctx.unknown("R2", "tp window", f.where(), "no `if <bounds on the measurement>` inside a loop over the reciprocal candidates found")
-    lt = [n for n in ast.walk(f.node) if isinstance(n, ast.If) and "math.floor" in U(n.test) and C.bounds_on(n.test, m) is not None]
-    okl = False
+        ctx.unknown("R2", "tp window", tf.where(), "no `if <bounds on the measurement>` inside a loop over the reciprocal candidates found")
+    lt = [n for n in ast.walk(lf.node) if isinstance(n, ast.If) and "math.floor" in U(n.test) and C.bounds_on(n.test, lm) is not None]
     if lt:
-        okl = C.bounds_on(lt[0].test, m) == ("or", {("LtE", frozenset({("math.floor(%s)" % m, 1.05)})),
-                                                    ("GtE", frozenset({("math.ceil(%s)" % m, 0.95)}))})
-        ret = [s for s in lt[0].body if isinstance(s, ast.Return)]
-        ctx.check(bool(ret) and U(ret[0].value) == "float(round(%s))" % m, "R2", "an accepted latency is rounded to the nearest integer",
-                  f.where(lt[0]), "accepted latency returns %s" % (U(ret[0].value) if ret else None), f.qname, "lt return")
+        okl = C.bounds_on(lt[0].test, lm) == ("or", {("LtE", frozenset({("math.floor(%s)" % lm, 1.05)})),
+                                                     ("GtE", frozenset({("math.ceil(%s)" % lm, 0.95)}))})
+        ret = [s_ for s_ in lt[0].body if isinstance(s_, ast.Return)]
+        ctx.check(bool(ret) and U(ret[0].value) == "float(round(%s))" % lm, "R2", "an accepted latency is rounded to the nearest integer",
+                  lf.where(lt[0]), "accepted latency returns %s" % (U(ret[0].value) if ret else None), lf.qname, "lt return")
         facts = [(U(e), p) for e, p in C.facts_at(lt[0])]
-        ctx.check(("%s == 'lt'" % mode, True) in facts, "R2", "integer snapping applies to latency mode", f.where(lt[0]),
-                  "integer snapping is not under mode == 'lt'", f.qname, "lt mode")
-    if lt:
-        ctx.check(okl, "R2", "latency window = within 5 % of floor or ceil", f.where(lt[0]),
-                  "latency acceptance test is `%s`" % U(lt[0].test), f.qname, "lt window")
+        ctx.check(l_del or ("%s == 'lt'" % mode, True) in facts, "R2", "integer snapping applies to latency mode", lf.where(lt[0]),
+                  "integer snapping is not under mode == 'lt'", lf.qname, "lt mode")
+        ctx.check(okl, "R2", "latency window = within 5 %% of floor or ceil", lf.where(lt[0]),
+                  "latency acceptance test is `%s`" % U(lt[0].test), lf.qname, "lt window")
     else:
-        ctx.unknown("R2", "lt window", f.where(), "no `if <bounds on the measurement by floor/ceil>` found")
-    last = f.node.body[-1]
-    ctx.judge(isinstance(last, ast.Return) and U(last.value) == "None", bool(lt) and bool(tp) and bool(rec), "R2", "outside the tolerances the value is None (not invented)",
-              f.where(last), "the fall-through result is %s" % U(last), f.qname, "fallthrough None")
-    consts = sorted({c for c in (C.const_num(n) for n in ast.walk(f.node)) if isinstance(c, float)})
+        ctx.unknown("R2", "lt window", lf.where(), "no `if <bounds on the measurement by floor/ceil>` found")
+    for fn in {tf, lf, f}:
+        last = fn.node.body[-1]
+        ctx.judge(isinstance(last, ast.Return) and U(last.value) == "None", bool(lt) and bool(tp), "R2",
+                  "outside the tolerances the value is None (not invented): %s" % fn.name,
+                  fn.where(last), "the fall-through result of %s is %s" % (fn.name, U(last)), fn.qname, "fallthrough None " + fn.name)
+    consts = sorted({c for fn in {tf, lf, f} for c in (C.const_num(n) for n in ast.walk(fn.node)) if isinstance(c, float)})
     ctx.check(consts == [0.95, 1.05], "R2", "the only tolerance constants are 0.95 / 1.05", f.where(),
               "tolerance constants are %s" % consts, f.qname, "constants")
     # callers pass the measurement and the right mode
